@@ -126,6 +126,17 @@ class H26(BaseComponent):
         _log(self, event, 'H6')
 
 
+class HM(BaseComponent):
+    # a handler declared for two names next to one declared for only one of them (the name buckets must stay separate)
+    @handler('e', 'f')
+    def a_multi(self, event, *a, **k):
+        _log(self, event, 'HMa')
+
+    @handler('f')
+    def z_single(self, event, *a, **k):
+        _log(self, event, 'HMz')
+
+
 class H1f(BaseComponent):
     @handler('e', 'f', channel='b')
     def h1f(self, event, *a, **k):
@@ -147,8 +158,9 @@ MENU = {
     'H14': (H14, [('H1', E, None), ('H4', (), None)]),
     'H26': (H26, [('H2', E, 'a'), ('H6', (), '*')]),
     'H1f': (H1f, [('H1f', ('e', 'f'), 'b')]),
+    'HM': (HM, [('HMa', ('e', 'f'), None), ('HMz', ('f',), None)]),
 }
-QUICK_MENU = ['none', 'H1', 'H2', 'H4', 'H6', 'H7', 'H8', 'H9']
+QUICK_MENU = ['none', 'H1', 'H2', 'H4', 'H6', 'H7', 'H8', 'H9', 'HM']
 CHANNELS = ('*', 'a', 'b')
 # forests over labelled nodes 0..n-1 as parent vectors (None = root); one per unlabelled shape
 SHAPES = {
@@ -219,6 +231,8 @@ def product_cases(tier):
     menu = QUICK_MENU if tier == 'quick' else list(MENU)
     for n in (1, 2, 3):
         for forest in SHAPES[n]:
+            if tier == 'quick' and forest == (None, None, None):
+                continue    # three unrelated singletons add nothing over the one-component cases
             for chans in itertools.product(CHANNELS, repeat=n):
                 for m in itertools.product(menu, repeat=n):
                     yield forest, chans, m
@@ -268,7 +282,7 @@ def _work_product(part, nparts, payload):
 # ---- (b) histories ---------------------------------------------------------------------------
 
 class Node(BaseComponent):
-    @handler('e')
+    @handler('e', 'g')
     def fixed(self, event, *a, **k):
         _log(self, event, 'fixed')
 
@@ -490,6 +504,15 @@ class HistModel(e1_history.Model):
                 kind = 'history:' + ('missing' if missing else 'extra-or-duplicate')
                 st.fail(kind, 'after %r a fire on root c%d delivered %r, expected %r (forest %r, dynamic %r)'
                         % (list(hist), r, got, exp, g.parent, g.dyn),
+                        {'part': 'history', 'n': self.n, 'hist': [list(o) for o in hist], 'probe': r})
+            # the dynamic handler is declared for 'e' only: an event named 'g' reaches the fixed handlers and nothing else
+            clone = self.build(hist)
+            got_g, _ = fire_probe(clone.comps, r, 'g', None, 2)
+            exp_g = [x for x in exp if x[1] == 'fixed']
+            st.executions += 1
+            if got_g != exp_g:
+                st.fail('history:other-name:' + ('missing' if [x for x in exp_g if x not in got_g] else 'extra-or-duplicate'),
+                        'after %r an event named g fired on root c%d was delivered to %r, expected %r' % (list(hist), r, got_g, exp_g),
                         {'part': 'history', 'n': self.n, 'hist': [list(o) for o in hist], 'probe': r})
             coldc = self.cold(g)
             got2, _ = fire_probe(coldc, r, 'e', None, 1)
